@@ -46,7 +46,8 @@ MANIFEST = {
             "and a positive instance (identity with x_foo: flagged, strict re-run ExtraPropertiesError) on the generated "
             "tables. Model tied to /repo by regenerated class tables and a correspondence run (flag + strict reparse "
             "outcome); the property itself is evaluated on the real library with custom content injected at every nesting "
-            "site -- including extensions, bundle and observed-data members -- of generated objects of every class.",
+            "site -- including extensions, bundle and observed-data members -- of generated objects of every class, each case "
+            "with customization disallowed, allowed, and not mentioned at all (which must equal disallowed).",
     "design_ref": "DESIGN.md 6/C02,C03,C04,C01 (T C04)",
     "note": "Trusted: Coq kernel + vm_compute, tr_tables translator, frozen spec tables (which sites exist), the generator. "
             "Store-level allow_custom forwarding is covered by C14's call-site table. Theorem hypotheses not discharged for "
@@ -260,6 +261,25 @@ def injections(gen, cid, o, full=False):
                 holder[key] = val
             en = r.choice(["x-custom-ext", "x-foo-ext", "unregistered-ext"])
             mut(lambda x: add(x, en, {"a": 1, "b": "v"}), "unregistered extension type %s at %s" % (en, ps), True)
+            # a key that IS a registered name -- of another registry category (objects, observables, markings) or of the
+            # other specification version -- is not a registered extension of this version: customization.  One such key per
+            # other category at the first object of each class, a sampled one elsewhere; its value a valid body of that type
+            mine_ext = set(gen.reg[ex["ver"]]["extensions"])
+            for ver2 in sorted(gen.reg):
+                for cat2 in sorted(gen.reg[ver2]):
+                    names2 = sorted(n2 for n2 in gen.reg[ver2][cat2] if n2 not in mine_ext)
+                    if not names2 or not maybe(0.12):
+                        continue
+                    key2 = r.choice(names2)
+                    cid2 = gen.reg[ver2][cat2][key2]
+                    try:
+                        body2 = gen.obj(cid2) if r.random() < 0.7 and isinstance(cid2, str) and cid2 in gen.classes else {"a": 1}
+                    except (IndexError, ValueError, KeyError):
+                        body2 = {"a": 1}
+                    if cat2 == "markings" or r.random() < 0.3:
+                        body2 = {k0: v0 for k0, v0 in body2.items() if k0 not in ("type", "id")} or {"a": 1}
+                    mut(lambda x: add(x, key2, body2),
+                        "extension key %s = a name registered as %s/%s, not as an extension of %s, at %s" % (key2, ver2, cat2, ex["ver"], ps), True)
             if ex["ver"] == "2.1" and maybe(0.5):
                 mut(lambda x: add(x, "extension-definition--" + U1, {"extension_type": "property-extension", "rank": 5}),
                     "unregistered extension-definition property-extension at %s" % ps, False)
@@ -498,8 +518,8 @@ def gen_cases(run, per_class):
                 if rt == "construct" and site.startswith("custom_properties key at <top>"):
                     cs["requested"] = True
                 cases.append(cs)
-                if cs["route"] == "construct" and "Bundle" in cid and isinstance(x.get("objects"), list) and not cs.get("prebuilt") \
-                        and r.random() < 0.5:
+                if cs["route"] == "construct" and "Bundle" in cid and isinstance(x.get("objects"), list) \
+                        and (cs.get("prebuilt") or r.random() < 0.5):
                     cases.append(dict({k0: v0 for k0, v0 in cs.items() if k0 != "twice"}, route="construct_positional"))
                 key = site.split(" at ")[0]
                 for w in ("custom property in the first of several", "custom property in the last of several", "specification-defined properties", "pre-built instance carrying", "pre-built instance without", "custom property inside", "custom property given as null", "custom property in registered", "custom property", "hash algorithm",
